@@ -164,6 +164,10 @@ pub fn queue_inv(cap: usize, qlen: usize, q: &[QEntry; MAXS]) -> bool {
 
 /// pick an arbitrary representation state satisfying I1, I2
 pub fn gen_pre(cap: usize, inflight_ok: bool) -> Pre {
+    #[cfg(futures_buffered_verif_model)]
+    if inflight_ok {
+        v::model_waker::set_two_phase(true);
+    }
     let mut p = Pre {
         cap,
         occ: [false; MAXS],
@@ -276,7 +280,7 @@ pub fn build_b(p: &Pre, group: u8, base: usize) -> FuturesUnorderedBounded<Fut> 
         |i| if p.occ[i] { Ok(Fut::new((base + i) as u8)) } else { Err(p.nf[i]) },
         p.free_head,
         p.qlen,
-        &|k| q[k],
+        &q,
         &w,
         p.reg,
     );
